@@ -6,9 +6,14 @@ package ice
 // results. After every later event each kept result must still be what it was when it was handed out.
 
 import (
+	"context"
 	"encoding/json"
 	"fmt"
+	"github.com/pion/stun/v3"
+	"net"
 	"strings"
+	"testing"
+	"testing/synctest"
 )
 
 func init() {
@@ -90,4 +95,77 @@ func (m *snapModel) Key() (string, []int) {
 	}
 
 	return k + " held=" + strings.Join(hs, ","), b
+}
+
+// ---------------------------------------------------------------- C06: the remote IP filter and the forms an address can take
+
+// c06filterForms: authenticated checks from sources the remote IP filter rejects, in every form a socket can report
+// them (IPv4, IPv4-in-IPv6, IPv6 link-local with and without a zone), and the same addresses signalled: none of
+// them becomes a remote candidate or a pair.
+func c06filterForms(t *testing.T) (problems []string, n int) {
+	inBubble(t, func() {
+		w := newWorld()
+		_, deny4, _ := net.ParseCIDR("10.66.0.0/16")
+		_, deny6, _ := net.ParseCIDR("fe80::/10")
+		a, err := NewAgentWithOptions(WithNet(vNet{}), WithMulticastDNSMode(MulticastDNSModeDisabled), WithNetworkTypes([]NetworkType{NetworkTypeUDP4, NetworkTypeUDP6}),
+			WithCandidateTypes([]CandidateType{CandidateTypeHost}), WithLocalCredentials(vUfragA, vPwdA), WithLoggerFactory(nopFactory{}),
+			WithRemoteIPFilter(func(ip net.IP) bool { return !deny4.Contains(ip) && !deny6.Contains(ip) }))
+		if err != nil {
+			panic(err)
+		}
+		defer a.Close() //nolint:errcheck
+		s4 := w.newSock("a0", "10.0.0.1", 1000, "")
+		s6 := w.newSock("a1", "2001:db8::1", 1001, "")
+		for _, lc := range []struct {
+			ip   string
+			port int
+			sock *vsock
+		}{{"10.0.0.1", 1000, s4}, {"2001:db8::1", 1001, s6}} {
+			c, _ := NewCandidateHost(&CandidateHostConfig{Network: "udp", Address: lc.ip, Port: lc.port, Component: 1})
+			if err := a.addCandidate(context.Background(), c, lc.sock); err != nil {
+				panic(err)
+			}
+		}
+		if _, err := a.StartAccept(vUfragB, vPwdB); err != nil {
+			panic(err)
+		}
+		synctest.Wait()
+		check := func() []byte {
+			m, _ := stun.Build(stun.BindingRequest, stun.TransactionID, stun.NewUsername(vUfragA+":"+vUfragB), AttrControlling(5), PriorityAttr(1845501695),
+				stun.NewShortTermIntegrity(vPwdA), stun.Fingerprint)
+
+			return m.Raw
+		}
+		denied := func(ip net.IP) bool { return deny4.Contains(ip) || deny6.Contains(ip) }
+		judge := func(what string) {
+			rcs, _ := a.GetRemoteCandidates()
+			for _, rc := range rcs {
+				ip := net.ParseIP(strings.Split(rc.Address(), "%")[0])
+				if ua, ok := rc.addr().(*net.UDPAddr); ok && ua != nil {
+					ip = ua.IP
+				}
+				if ip != nil && denied(ip) {
+					problems = append(problems, fmt.Sprintf("after %s the remote candidates include %s %s, which the remote IP filter rejects", what, rc.Type(), rc.addr()))
+				}
+			}
+		}
+		for _, src := range []struct {
+			sock *vsock
+			from string
+		}{{s4, "10.66.0.5:2005"}, {s4, "[::ffff:10.66.0.5]:2005"}, {s6, "[fe80::1234]:9999"}, {s6, "[fe80::1234%eth0]:9999"}} {
+			n++
+			w.inject(src.sock, src.from, check())
+			judge("an authenticated check from " + src.from)
+		}
+		for _, line := range []string{"1 1 udp 2130706431 10.66.0.5 2005 typ host", "2 1 udp 2130706431 fe80::1234 9999 typ host", "3 1 udp 2130706431 ::ffff:10.66.0.6 2006 typ host"} {
+			n++
+			if rc, err := UnmarshalCandidate(line); err == nil {
+				_ = a.AddRemoteCandidate(rc)
+				synctest.Wait()
+				judge("signalling " + line)
+			}
+		}
+	})
+
+	return problems, n
 }
